@@ -2,12 +2,15 @@
 import copy
 import json
 import math
+import operator
+import pickle
 from collections.abc import Mapping
 
 from hypothesis import strategies as st
 from multidict import CIMultiDict, MultiDict
 
 from .. import gen
+from ..observe import diff, observe
 from ..util import jsonable
 
 RULE = ("existing query (list of pairs with duplicates, blanks, reserved characters, non-ASCII; or a raw query string with empty chunks) x operation "
@@ -100,6 +103,10 @@ def is_bad(v):
     return v is None or isinstance(v, (bool, bytes, bytearray, memoryview)) or (isinstance(v, float) and (math.isnan(v) or math.isinf(v))) or type(v) is object
 
 
+def _esc(t):
+    return "".join(c if c in "abcdefghijklmnopqrstuvwxyz0123456789" else "".join("%%%02X" % b for b in c.encode("utf-8")) for c in t)
+
+
 def make_arg(form, pairs):
     if form == "dict":
         return dict(pairs)
@@ -177,6 +184,7 @@ def check_op(ctx, backend, old, op, form, new):
         B = Y.URL("http://u@h.example:81/p#f").with_query([tuple(p) for p in old])
     old_items = list(B.query.items())
     b_str = str(B)
+    observe(B)  # every accessor of the receiver is memoised before the operation
     pairs = [(k, decode_value(v)) for k, v in new]
     bad = any(is_bad(v) or (isinstance(v, (list, tuple)) and any(is_bad(x) or isinstance(x, (list, tuple)) for x in v)) for _k, v in pairs)
     keys_new = [k for k, _ in pairs]
@@ -193,6 +201,9 @@ def check_op(ctx, backend, old, op, form, new):
         arg = None
     elif form == "str":
         arg = "&".join("%s=%s" % (k, v) for k, v in pairs)
+    elif form == "stresc":
+        # the same pairs written as a query string in which everything but lower-case letters and digits is percent-encoded
+        arg = "&".join("%s=%s" % (_esc(k), _esc(v)) for k, v in pairs)
     else:
         arg = make_arg(form, pairs)
     before = snapshot_arg(arg)
@@ -201,7 +212,7 @@ def check_op(ctx, backend, old, op, form, new):
     def call():
         if op == "build":
             return Y.URL.build(scheme="http", user="u", host="h.example", port=81, path="/p", fragment="f", query=arg) if form != "kwargs" else None
-        f = getattr(B, op) if op != "mod" else B.__mod__
+        f = getattr(B, op) if op != "mod" else (lambda a: operator.mod(B, a))  # the operator itself (a NotImplemented from __mod__ must surface as TypeError)
         if form == "kwargs":
             if op == "mod":
                 return None
@@ -214,6 +225,10 @@ def check_op(ctx, backend, old, op, form, new):
             exp_new = None
         elif form == "str":
             exp_new = [(k, str(v)) for k, v in pairs]
+        elif form == "stresc":
+            # update_query()/% parse a string argument (escapes are decoded); with_query()/extend_query()/build() take it as text to be
+            # encoded (documented: "auto-encoded"), so its '%' signs are literal there and the escaped spelling reads back verbatim
+            exp_new = [(k, str(v)) for k, v in pairs] if op in ("update_query", "mod") else [(_esc(k), _esc(v)) for k, v in pairs]
         else:
             exp_new = expand(arg, form)
         model_exc = None
@@ -222,6 +237,8 @@ def check_op(ctx, backend, old, op, form, new):
     try:
         R = call()
     except (TypeError, ValueError) as ex:
+        if form == "none" and op in ("with_query", "update_query", "mod"):
+            ctx.check(False, "None (clear the query) was rejected by with_query/update_query/%", observed=ex, expected="accepted", entry=op)
         if model_exc is None and form != "none" and not (form in ("list", "tuple", "listpairs") and any(isinstance(v, (list, tuple)) for _k, v in pairs)):
             ctx.check(False, "valid query argument rejected", observed=ex, expected="accepted", entry=op)
         return
@@ -238,6 +255,12 @@ def check_op(ctx, backend, old, op, form, new):
             ctx.check(False, "rejected value type accepted (bool/None/NaN/inf/bytes/nested sequence)", observed=str(R), expected="TypeError/ValueError", entry=op)
         return
     got = list(R.query.items())
+    if R is not B:
+        o1, o2 = observe(R), observe(pickle.loads(pickle.dumps(R)))
+        if o1 != o2:
+            d = diff(o1, o2)
+            ctx.check(False, "an accessor of the result differs from the same accessor of its cache-free twin (a memoised value of the receiver travelled into the result)",
+                      observed={"fields": d, "result": str(R)}, expected="identical", entry=op + ":" + ",".join(sorted(d))[:60])
     if op in ("extend_query", "update_query", "with_query") and model_exc is None and form != "kwargs":
         try:
             R2 = call()
@@ -334,6 +357,9 @@ def generated(ctx, backend, n):
     plain = st.text(alphabet="abcXYZ019-._~", max_size=4)
     ctx.given("op", {"old": old, "op": ops, "form": st.sampled_from(["str", "none"]), "new": st.lists(st.tuples(plain.filter(bool), plain).map(list), min_size=1, max_size=3)},
               max_examples=n // 4, fixed={"backend": backend}, tag="str")
+    rich = st.text(alphabet="abA&=+ %;#?/\xe9\u20ac.~", max_size=4)
+    ctx.given("op", {"old": old, "op": ops, "form": st.just("stresc"), "new": st.lists(st.tuples(rich.filter(bool), rich).map(list), min_size=1, max_size=3)},
+              max_examples=n // 3, fixed={"backend": backend}, tag="stresc")
     ctx.given("without", {"old": st.lists(st.tuples(key, key).map(list), max_size=6), "keys": st.lists(key, max_size=3)}, max_examples=n // 4, fixed={"backend": backend})
     for op in ("with_query", "extend_query", "update_query"):
         ctx.run("arity", backend=backend, op=op)
